@@ -45,8 +45,10 @@ func (c09) ID() string { return "C09" }
 func init() { register(c09{}) }
 
 var c09Kinds = []string{"swap-cons", "deref", "reset", "swap-conj", "swap-wide", "swap-throw", "swap-typeerr",
-	"swap-reads-other", "swap-derefs-self", "swap-updates-other", "swap-resets-other", "gensym", "memo"}
-var c09Weights = []int{5, 4, 3, 2, 3, 1, 1, 2, 1, 2, 1, 1, 1}
+	"swap-reads-other", "swap-derefs-self", "swap-updates-other", "swap-resets-other", "gensym", "memo",
+	"deref-fn", "swap-extra-args", "swap-late-throw", "swap-derefs-self-wide", "swap-in-let", "reset-computed"}
+var c09Weights = []int{5, 4, 3, 2, 3, 1, 1, 2, 1, 2, 1, 1, 1,
+	2, 2, 1, 1, 1, 1}
 
 func atomName(i int) string { return "a" + strconv.Itoa(i) }
 
@@ -84,6 +86,20 @@ func (op *c09Op) build() {
 	case "swap-resets-other":
 		id := nid("reset", b, k2)
 		src = "(swap! " + a + " (fn [v] (do (h-begin " + id + ") (h-end " + id + " (reset! " + b + " (list " + k2 + "))) (cons " + k + " v))))"
+	case "deref-fn":
+		src = "(deref " + a + ")"
+	case "swap-extra-args":
+		src = "(swap! " + a + " (fn [v x y] (cons (+ x y) v)) " + k + " 0)"
+	case "swap-late-throw":
+		// fails after having done real work on the value it read
+		src = "(swap! " + a + " (fn [v] (do (spin " + strconv.Itoa(op.Spin) + ") (count v) (throw " + k + "))))"
+	case "swap-derefs-self-wide":
+		id := nid("deref", a, "")
+		src = "(swap! " + a + " (fn [v] (do (spin " + strconv.Itoa(op.Spin) + ") (h-begin " + id + ") (h-end " + id + " @" + a + ") (spin 2) (cons " + k + " v))))"
+	case "swap-in-let":
+		src = "(let [f (fn [v] (cons " + k + " v)) r (swap! " + a + " f)] r)"
+	case "reset-computed":
+		src = "(reset! " + a + " (cons " + k + " ()))"
 	case "gensym":
 		src = "(gensym)"
 	case "memo":
@@ -280,11 +296,11 @@ func (c09) Run(tp *Tape, opt RunOpt) *RunOut {
 			topOfTask[ev.Task] = op.Kind
 			r := &opRec{atom: op.Atom, call: ev.Seq, label: op.ID + " " + op.Src, topKind: op.Kind}
 			switch op.Kind {
-			case "deref":
+			case "deref", "deref-fn":
 				r.in = atomIn{"deref", ""}
-			case "reset":
+			case "reset", "reset-computed":
 				r.in = atomIn{"reset", strconv.Itoa(op.Tok)}
-			case "swap-throw", "swap-typeerr":
+			case "swap-throw", "swap-typeerr", "swap-late-throw":
 				r.in = atomIn{"swap-fail", strconv.Itoa(op.Tok)}
 			case "gensym", "memo":
 				r.atom = -1
@@ -312,7 +328,7 @@ func (c09) Run(tp *Tape, opt RunOpt) *RunOut {
 				if ev.B != want {
 					memoBad = op.Src + " returned " + ev.B + ", want " + want
 				}
-			case "swap-throw":
+			case "swap-throw", "swap-late-throw":
 				if !r.isErr || ev.B != "#thrown<"+strconv.Itoa(op.Tok)+">" {
 					out.Violations = append(out.Violations, Violation{"C09.failed-update", "swap-throw", op.Src + " returned " + ev.B + " instead of the thrown value"})
 				}
